@@ -47,6 +47,8 @@ class Engine:
         self._path_reached = False
         self.stop_on_violation = False
         self.path_log = []
+        self.errors = []             # python exceptions escaping a path (code under test or oracle)
+        self.catch_errors = True
 
     # --- low level
     def _check(self, *extra):
@@ -118,6 +120,12 @@ class Engine:
                 self.unsupported.append(str(e)[:300])
             except SXBound:
                 self.bound_hits += 1
+            except Exception as e:
+                if not self.catch_errors:
+                    raise
+                import traceback
+                self.errors.append('%s: %s | %s' % (type(e).__name__, e, ' <- '.join(
+                    '%s:%d' % (os.path.basename(f.filename), f.lineno) for f in traceback.extract_tb(e.__traceback__)[-4:])))
             self.paths += 1
             if self._path_reached:
                 self.reached += 1
@@ -160,6 +168,7 @@ class Engine:
     def stats(self):
         return dict(paths=self.paths, reached=self.reached, z3_checks=self.checks, assertions=self.assertions,
                     solver_s=round(self.solver_s, 3), unsupported=len(self.unsupported), bound_hits=self.bound_hits,
+                    errors=len(self.errors),
                     violations=len(self.violations))
 
 
